@@ -21,6 +21,32 @@ Theorem C09_cache_transparent : forall f ops d rq a,
 Proof. exact cache_transparent. Qed.
 Print Assumptions C09_cache_transparent.
 
+(* Full strength, with the fuel made explicit: on whatever fuel the reference answer is defined, every
+   request of every history is answered (no OOF, no Err) by exactly that answer, and so is a brand-new
+   project: request_answer = fresh (disk_after history). *)
+Theorem C09_full : forall f ops d rq r a,
+  In (d, rq, r) (snd (run Repaired f init_world ops)) ->
+  ref_answer f d rq = Some a -> r = Ok a /\ fresh f d rq = Ok a.
+Proof. exact cache_transparent_full. Qed.
+Print Assumptions C09_full.
+
+(* The stated fuel suffices: on an acyclic project (every import edge between modules on disk goes to a
+   module of smaller rank, ranks below R) the reference answer is defined with fuel R + 1 ... *)
+Theorem C09_fuel_suffices : forall d rk R, ranked d rk -> rank_bound d rk R ->
+  forall rq, exists a, ref_answer (R + 1) d rq = Some a.
+Proof. exact ref_answer_total. Qed.
+Print Assumptions C09_fuel_suffices.
+
+(* ... hence, unconditionally: whenever the disk is acyclic at the moment of a request and the fuel is
+   at least R + 1, the long-lived project answers, a brand-new project answers, and both give the
+   reference answer. *)
+Theorem C09_acyclic : forall f ops d rq r rk R,
+  In (d, rq, r) (snd (run Repaired f init_world ops)) ->
+  ranked d rk -> rank_bound d rk R -> R + 1 <= f ->
+  exists a, ref_answer f d rq = Some a /\ r = Ok a /\ fresh f d rq = Ok a.
+Proof. exact cache_transparent_acyclic. Qed.
+Print Assumptions C09_acyclic.
+
 (* The reference answer is unique: it does not depend on the fuel once there is enough of it. *)
 Theorem C09_ref_deterministic : forall d rq f1 f2 a1 a2,
   ref_answer f1 d rq = Some a1 -> ref_answer f2 d rq = Some a2 -> a1 = a2.
@@ -74,6 +100,13 @@ Example C09_example :
   answers Repaired 10 f23_neg_history = [Ok (ANames []); Ok (ANames [24%N])] /\
   stale_obs Repaired 10 f23_history = false /\ stale_obs AsIs 10 f23_history = true.
 Proof. vm_compute. repeat split; reflexivity. Qed.
+
+(* Non-vacuity of the acyclicity hypotheses: the final disk of the witness history is ranked
+   (a = 2 > b = 1 > c = 0) with bound 3, so C09_acyclic applies to it with any fuel >= 4. *)
+Example C09_example_ranked :
+  let d := w_disk (fst (run Repaired 10 init_world f23_history)) in
+  ranked d f23_rank /\ rank_bound d f23_rank 3.
+Proof. split; [apply rankedb_sound | apply rank_boundb_sound]; vm_compute; reflexivity. Qed.
 
 (* Non-vacuity of the invariant: the state reached after the first request of the witness is a
    non-empty cache (3 modules) satisfying the hypotheses of C09_invariant_established. *)
